@@ -48,10 +48,38 @@ pub fn character_string_value(input: Input<'_>) -> ParserResult<'_, ASN1Value> {
 pub fn cstring(input: Input<'_>) -> ParserResult<'_, String> {
     map(raw_string_literal, |s| {
         // Replace any escaped quote with a single `"`
-        // TODO: Remove whitespace around newlines in multiline strings.
-        s.replace("\"\"", "\"")
+        let unescaped = s.replace("\"\"", "\"");
+        if !unescaped.contains(is_newline) {
+            return unescaped;
+        }
+        // The end of line and the spacing characters next to it are not part of the string.
+        // The start of the first and the end of the last line are next to a quotation mark.
+        let last = unescaped.split(is_newline).count() - 1;
+        unescaped
+            .split(is_newline)
+            .enumerate()
+            .map(|(i, mut line)| {
+                if i > 0 {
+                    line = line.trim_start_matches(is_spacing);
+                }
+                if i < last {
+                    line = line.trim_end_matches(is_spacing);
+                }
+                line
+            })
+            .collect()
     })
     .parse(input)
+}
+
+/// X.680 12.1.6: the newline characters
+fn is_newline(c: char) -> bool {
+    matches!(c, '\n' | '\u{b}' | '\u{c}' | '\r')
+}
+
+/// X.680 12.1.6: the white-space characters other than newline
+fn is_spacing(c: char) -> bool {
+    matches!(c, '\t' | ' ' | '\u{a0}')
 }
 
 /// Parses a string literal into its raw value.
